@@ -1,0 +1,19 @@
+//go:build !verif
+
+package column
+
+// Yield points used only by the deterministic simulator (build tag "verif", see
+// verif_hook.go). Without the tag simYield is empty and is inlined away.
+const (
+	simBeforeRLock   = 1
+	simBeforeLock    = 2
+	simAfterUnlock   = 3
+	simMidCommit1    = 4
+	simMidCommit2    = 5
+	simMidCommit3    = 6
+	simAfterReserve  = 7
+	simKeyChecked    = 8
+	simSnapshotPhase = 9
+)
+
+func simYield(*Collection, uint8, uint32) {}
